@@ -214,6 +214,15 @@ func (h HSynchronize) Synchronize(_ context.Context, pods []*api.PodSandbox, ctr
 	return h.R.updates(), nil
 }
 
+// HShutdown makes a type implement the shutdown interface.
+type HShutdown struct{ R *Rec }
+
+func (h HShutdown) Shutdown(context.Context) {
+	h.R.mu.Lock()
+	h.R.Calls = append(h.R.Calls, Call{Handler: "Shutdown"})
+	h.R.mu.Unlock()
+}
+
 // Recorders lists the embedded type name per event bit (bit i = event number i+1 of api.Event).
 var Recorders = []string{"HRunPod", "HStopPod", "HRemovePod", "HCreate", "HPostCreate", "HStart", "HPostStart",
 	"HUpdate", "HPostUpdate", "HStop", "HRemove", "HUpdatePod", "HPostUpdatePod"}
